@@ -87,7 +87,9 @@ def par_mismatches(ctx, name, header, cases, fns, shard, workers=6):
 
 def run(ctx):
     ctx.proofs()
+    ctx.log("proofs audited")
     hx = ctx.go_build("c06")
+    ctx.log("harness built")
     if ctx.quick():
         args = ["-rand", "60", "-cancel-every", "40"]
     else:
@@ -128,7 +130,7 @@ def run(ctx):
                 refs.append(l)
     ctx.log("harness: %d scenarios, %d cancellation runs, %d Go-oracle violations; %d cases for Coq" % (
         sum(1 for l in lines if l["kind"] == "scenario"), ncancel, nviol, len(terms)))
-    bad_model, bad_spec = par_mismatches(ctx, "c06_cases", HEADER, terms, ["model_ok", "spec_ok"], shard=150 if ctx.quick() else 400)
+    bad_model, bad_spec = par_mismatches(ctx, "c06_cases", HEADER, terms, ["model_ok", "spec_ok"], shard=360 if ctx.quick() else 500)
     for i in bad_spec:
         l = refs[i]
         ctx.finding(l["vkey"], "%s: the observation violates the specification (Spec.spec_after)" % l["family"],
